@@ -10,10 +10,30 @@ from vlib.runner import Facet, Prop, Violation, require
 
 
 def run_case(desc):
+    from vlib.runner import Discard
+
     cfg = desc["cfg"]
     stock = sg.build_stock(cfg)
     guard_conditioning(cfg, stock)
     stock.compute()
+    out = check_tables(cfg, stock, "")
+    if cfg.get("reprm"):
+        cfg2 = dict(cfg, lt=dict(cfg["lt"], prms=cfg["reprm"]))
+        try:
+            guard_conditioning(cfg2, sg.build_stock(cfg2))
+        except Discard:
+            return out
+        U = sg.universe_of(cfg)
+        if cfg["cls"].startswith("sdsm"):
+            stock.stock.values[...] = sg.driver_array(cfg).values
+        stock.lifetime_model.set_prms(**{k: sg.build_prm(U, p) for k, p in cfg["reprm"].items()})
+        stock.compute()
+        check_tables(cfg2, stock, "after-set_prms-")
+        out["classes"].append("recomputed-after-set_prms")
+    return out
+
+
+def check_tables(cfg, stock, pre):
     S = np.array(stock.stock.values, float)
     I = np.array(stock.inflow.values, float)
     O = np.array(stock.outflow.values, float)
@@ -27,9 +47,9 @@ def run_case(desc):
     require(sbc.shape == (n,) + S.shape and obc.shape == (n,) + S.shape, "cohort-table-shape", f"{sbc.shape} {obc.shape}")
     dtc = dt.reshape((n,) + (1,) * (S.ndim - 1))
     scale = float(np.max(np.abs(S)) + np.max(dtc * (np.abs(I) + np.abs(O))))
-    tol = 1e-9 * max(1.0, scale)
-    require(np.max(np.abs(sbc.sum(axis=1) - S)) <= tol, f"stock-not-sum-of-cohorts-{kind}-{gk}", f"max diff {np.max(np.abs(sbc.sum(axis=1) - S)):.3g}; grid {cfg['grid']}")
-    require(np.max(np.abs(obc.sum(axis=1) - O)) <= tol, f"outflow-not-sum-of-cohorts-{kind}-{gk}", f"max diff {np.max(np.abs(obc.sum(axis=1) - O)):.3g}")
+    tol = 1e-9 * scale  # relative: flows may be in any unit
+    require(np.max(np.abs(sbc.sum(axis=1) - S)) <= tol, f"{pre}stock-not-sum-of-cohorts-{kind}-{gk}", f"max diff {np.max(np.abs(sbc.sum(axis=1) - S)):.3g}; grid {cfg['grid']}")
+    require(np.max(np.abs(obc.sum(axis=1) - O)) <= tol, f"{pre}outflow-not-sum-of-cohorts-{kind}-{gk}", f"max diff {np.max(np.abs(obc.sum(axis=1) - O)):.3g}")
     entered = dtc * I  # whole-interval inflow per cohort
     for t in range(n):
         for c in range(n):
@@ -37,19 +57,19 @@ def run_case(desc):
                 require(np.all(sbc[t, c] == 0) and np.all(obc[t, c] == 0), "cohort-later-than-year-nonzero", f"t={t} c={c}")
             else:
                 exp = entered[c] * sf[t, c]
-                require(np.max(np.abs(sbc[t, c] - exp)) <= tol, f"cohort-stock-not-inflow-times-survival-{kind}-{gk}", f"t={t} c={c}: {np.max(np.abs(sbc[t, c] - exp)):.3g}")
+                require(np.max(np.abs(sbc[t, c] - exp)) <= tol, f"{pre}cohort-stock-not-inflow-times-survival-{kind}-{gk}", f"t={t} c={c}: {np.max(np.abs(sbc[t, c] - exp)):.3g}")
     # cohort conservation
     left = np.zeros_like(sbc[0])
     for t in range(n):
         left = left + dt[t] * obc[t]  # cumulative outflow of every cohort up to t (whole intervals)
         for c in range(t + 1):
             resid = entered[c] - sbc[t, c] - left[c]
-            require(np.max(np.abs(resid)) <= tol * (t + 2), f"cohort-not-conserved-{kind}-{gk}", f"t={t} c={c}: residual {np.max(np.abs(resid)):.3g}; grid {cfg['grid']}")
+            require(np.max(np.abs(resid)) <= tol * (t + 2), f"{pre}cohort-not-conserved-{kind}-{gk}", f"t={t} c={c}: residual {np.max(np.abs(resid)):.3g}; grid {cfg['grid']}")
     if np.all(I >= 0):
         d = np.diff(sbc, axis=0)
         for c in range(n):
             require(np.all(d[c:, c] <= tol), "cohort-stock-increases", f"c={c}")
-    cl = classes_of(cfg)
+    cl = classes_of(cfg) + [f"scale:{cfg.get('scale', 1.0):g}"]
     nz = int(np.sum(np.any(np.abs(I.reshape(n, -1)) > 0, axis=1)))
     return {"nontrivial": gk != "unit" or nz >= 3, "classes": cl}
 
